@@ -754,6 +754,14 @@ fn abort_error(tcb: &Tcb) -> Option<Error> {
 
 fn abort_with(k: &mut Kernel, fd: Fd, reason: AbortReason) {
     let st = k.lookup_mut(fd).unwrap();
+    // A listener child that is still handshaking has no owner: the app
+    // never saw it (not yet in any accept queue), so nothing would ever
+    // close it. Reap it right here, otherwise it keeps its binding and
+    // 4-tuple forever.
+    if matches!(&st.tcb, Some(t) if t.state == TcpState::SynReceived) {
+        k.sockets.remove(fd);
+        return;
+    }
     if let Some(tcb) = st.tcb.as_mut() {
         tcb.state = TcpState::Closed;
         match reason {
